@@ -1,6 +1,35 @@
+//! Triage helper: probe '<m1 text>' ['<m2 text>'] prints, for every identifier token of m1, what
+//! goto_definition / references / hover say.
+use ide::{FileId, FilePos, GotoDefinitionResult};
+use syntax::{NodeOrToken, SyntaxKind};
+use verif_harness::util::{catch, quiet_panics};
 fn main() {
-    let (p, t) = syntax::parser::parse_module_traced("fn a() { 1 } // x\n");
-    println!("{:?} {:?}", p.errors(), t);
-    let (text, lm) = glas::verif::LineMap::verif_new("a\r\nß💣".to_string());
-    println!("{text:?} {:?}", lm.line_col_for_pos(6.into()));
+    quiet_panics();
+    let args: Vec<String> = std::env::args().collect();
+    let m1 = args[1].clone();
+    let m2 = args.get(2).cloned().unwrap_or_else(|| verif_harness::programs::LIB_TEXT.to_string());
+    let ws = verif_harness::workspace::single_package(&[("m1", &m1), ("m2", &m2)]);
+    let a = ws.host.snapshot();
+    let texts = [m1.clone(), m2.clone()];
+    let parse = syntax::parse_module(&m1);
+    println!("errors: {:?}", parse.errors());
+    for el in parse.syntax_node().descendants_with_tokens() {
+        if let NodeOrToken::Token(t) = el {
+            if matches!(t.kind(), SyntaxKind::IDENT | SyntaxKind::U_IDENT) {
+                let pos = FilePos::new(FileId(0), t.text_range().start());
+                let g = catch(|| a.goto_definition(pos).unwrap());
+                let gs = match g {
+                    Ok(Some(GotoDefinitionResult::Targets(ts))) => ts.iter().map(|n| format!("f{}:{:?}={:?}", n.file_id.0, n.focus_range, texts.get(n.file_id.0 as usize).map(|x| &x[n.focus_range]))).collect::<Vec<_>>().join(","),
+                    Ok(None) => "None".into(),
+                    Ok(Some(o)) => format!("{o:?}"),
+                    Err(p) => format!("PANIC {p}"),
+                };
+                let r = catch(|| a.references(pos).unwrap());
+                let rs = match r { Ok(Some(v)) => { let mut v: Vec<String> = v.iter().map(|fr| format!("f{}:{:?}", fr.file_id.0, fr.range)).collect(); v.sort(); v.join(",") } Ok(None) => "None".into(), Err(p) => format!("PANIC {p}") };
+                let h = catch(|| a.hover(pos).unwrap());
+                let hs = match h { Ok(Some(h)) => h.markup.replace('\n', " "), Ok(None) => "None".into(), Err(p) => format!("PANIC {p}") };
+                println!("{:>4} {:<6} goto={}  refs=[{}]  hover={}", u32::from(t.text_range().start()), t.text(), gs, rs, hs.chars().take(60).collect::<String>());
+            }
+        }
+    }
 }
